@@ -39,13 +39,51 @@ def setTrans (orig new : Ref) (tr : List (Ref × Ref)) : List (Ref × Ref) :=
 /-- `Copier.Redirect` -/
 def redirect (s : St) (orig new : Ref) : St := { s with trans := setTrans orig new s.trans }
 
-/-- Resolve in `CopyReference`: a malformed or undefined object is copied as null, a read error
-    is passed on -/
+/-- What a source reference stands for: `Resolve`, with a malformed or undefined object (also a
+    reference loop or an over-deep chain) read as null, a read error passed on.  `CopyReference`
+    computes it link by link (`walkChain`), looking every link up in `trans`;
+    `Props/C11cpy.walkFrom_out` shows that the walk ends at this value. -/
 def resolveOrNull (G : Graph) (r : Ref) : Except CErr Val :=
   match resolve G true (.ref r.1 r.2) with
   | .error .malformed => .ok (.obj .null)
   | .error e => .error e
   | .ok v => .ok v
+
+/-- the outcome of following the chain "N 0 obj M 0 R endobj" link by link in `CopyReference` -/
+inductive Walk where
+  | known (t : Ref) (chain : List Ref)   -- a link is translated already: the links before it get `t`
+  | ends (v : Val) (chain : List Ref)    -- the chain ends at the value `v`; `chain` are all its links
+  | dead                                 -- malformed link, reference loop, over-deep chain: null
+  | fails (e : CErr)                     -- the Getter failed (not a malformed object)
+  deriving Inhabited
+
+/-- The loop at the head of `CopyReference`.  `chain` are the links met so far (`cur` is the last
+    one), `d` the number of further links `limits.MaxExtractDepth` still admits. -/
+def walkChain (G : Graph) (tr : List (Ref × Ref)) : Nat → List Ref → Ref → Walk
+  | d, chain, cur =>
+    match get G cur true with
+    | .error .malformed => .dead
+    | .error e => .fails e
+    | .ok (.obj (.ref n g)) =>
+      match assoc (n, g) tr with
+      | some t => .known t chain
+      | none =>
+        if chain.contains (n, g) then .dead else
+        match d with
+        | 0 => .dead
+        | d'+1 => walkChain G tr d' (chain ++ [(n, g)]) (n, g)
+    | .ok v => .ends v chain
+
+/-- `c.trans[key] = t` for every link of the chain -/
+def enter (chain : List Ref) (t : Ref) (tr : List (Ref × Ref)) : List (Ref × Ref) :=
+  chain.map (fun k => (k, t)) ++ tr
+
+/-- the walk of `CopyReference(r)`.  A malformed link, a reference loop and an over-deep chain
+    resolve to null, and then only `r` itself is entered into `trans` (`chain = chain[:1]`). -/
+def walkFrom (G : Graph) (tr : List (Ref × Ref)) (r : Ref) : Walk :=
+  match walkChain G tr (Gen.cpy_MaxExtractDepth - 1) [r] r with
+  | .dead => .ends (.obj .null) [r]
+  | w => w
 
 mutual
 /-- `Copier.Copy` on a non-stream object -/
@@ -135,20 +173,23 @@ def copyVal : Nat → Graph → St → Val → Except CErr (Val × St)
       | .ok .unsupportedCF => .error .other
       | .ok _ => .ok (.stream dict' data false, s1)   -- bytes after decryption; `crypt` unset
 
-/-- `Copier.CopyReference` -/
+/-- `Copier.CopyReference`: every link of a chain of references gets the same translation, so
+    an object reached directly and through alias objects is copied once -/
 def copyRef : Nat → Graph → St → Ref → Except CErr (Ref × St)
   | 0, _, _, _ => .error .fuel
   | f+1, G, s, r =>
     match assoc r s.trans with
     | some t => .ok (t, s)
     | none =>
-      match alloc s with
-      | .error e => .error e
-      | .ok (n, s1) =>
-        let s2 : St := { s1 with trans := (r, n) :: s1.trans }
-        match resolveOrNull G r with
+      match walkFrom G s.trans r with
+      | .fails e => .error e
+      | .dead => .error .gap            -- `walkFrom` never answers `dead`
+      | .known t chain => .ok (t, { s with trans := enter chain t s.trans })
+      | .ends v chain =>
+        match alloc s with
         | .error e => .error e
-        | .ok v =>
+        | .ok (n, s1) =>
+          let s2 : St := { s1 with trans := enter chain n s1.trans }
           match copyVal f G s2 v with
           | .error e => .error e
           | .ok (v', s3) =>
@@ -309,13 +350,15 @@ def copyRefE : Nat → Graph → St → Ref → Except CErr Ref × St
     match assoc r s.trans with
     | some t => (.ok t, s)
     | none =>
-      match alloc s with
-      | .error e => (.error e, s)
-      | .ok (n, s1) =>
-        let s2 : St := { s1 with trans := (r, n) :: s1.trans }
-        match resolveOrNull G r with
-        | .error e => (.error e, restoreTrans s s2)
-        | .ok v =>
+      match walkFrom G s.trans r with
+      | .fails e => (.error e, s)
+      | .dead => (.error .gap, s)
+      | .known t chain => (.ok t, { s with trans := enter chain t s.trans })
+      | .ends v chain =>
+        match alloc s with
+        | .error e => (.error e, s)
+        | .ok (n, s1) =>
+          let s2 : St := { s1 with trans := enter chain n s1.trans }
           match copyValE f G s2 v with
           | (.error e, s3) => (.error e, restoreTrans s s3)
           | (.ok v', s3) =>
